@@ -7,7 +7,10 @@ use crate::utils::curr_time_millis;
 use crate::Result;
 use std::cmp;
 use std::collections::HashMap;
+#[cfg(not(sentinel_verif))]
 use std::sync::Arc;
+#[cfg(sentinel_verif)]
+use sentinel_verif_rt::sync::Arc;
 
 // SlidingWindowMetric represents the sliding window metric wrapper,
 // several of which might associated the same inner BucketLeapArray
